@@ -1,6 +1,6 @@
 (* C10 - Events reach exactly the active subscribers, exactly once, in dispatch order. *)
 From Coq Require Import List Bool Arith.
-From Asphalt Require Import Ev.SigModel Ev.SigProofs Gen.Gen_signal.
+From Asphalt Require Import Ev.SigModel Ev.SigProofs Gen.Gen_signal Gen.Gen_stream.
 Import ListNotations.
 
 (* For every history and every subscriber, in every reachable state: the events the stream has
@@ -68,3 +68,28 @@ Theorem C10_dispatch_in_source :
   sig_closed_receiver_skipped = true /\ sig_full_queue_warns_and_drops = true.
 Proof. exact signal_dispatch_source_shape. Qed.
 Print Assumptions C10_dispatch_in_source.
+
+(* the stream wait_event opens -- with the queue bound the translator read from wait_event on this run -- is
+   unbounded, one-shot, subscribed to exactly the given signals with the given filter ... *)
+Theorem C10_wait_stream : forall s cs f,
+  exists st, streams (fst (sstep s (Wait cs f))) = streams s ++ [st] /\ s_cap st = None /\ s_oneshot st = true /\
+             s_chans st = cs /\ s_flt st = f.
+Proof. exact wait_stream_unbounded. Qed.
+Print Assumptions C10_wait_stream.
+
+(* ... so nothing dispatched after wait_event began is ever dropped for it (F7: a bounded queue filled by events
+   that do not pass the filter used to lose the awaited one) *)
+Theorem C10_wait_event_never_loses : forall s cs f st e,
+  streams (fst (sstep s (Wait cs f))) = streams s ++ [st] -> snd (deliver1 e st) = false.
+Proof. exact wait_event_never_loses. Qed.
+Print Assumptions C10_wait_event_never_loses.
+
+(* stream_events / wait_event as read from the source on this run: default bound 50, wait_event unbounded, the
+   filter applied on the receiving side, one queue for all the signals, subscribed on entry and unsubscribed on
+   exit, wait_event returns the first event its stream yields *)
+Theorem C10_stream_in_source :
+  stream_default_queue = 50 /\ wait_queue = None /\ stream_filter_on_receiving_side = true /\
+  stream_subscribes_on_entry = true /\ stream_one_queue_for_all_signals = true /\
+  stream_unsubscribes_on_exit = true /\ wait_returns_first_yielded = true /\ shortcuts_delegate = true.
+Proof. exact stream_source_shape. Qed.
+Print Assumptions C10_stream_in_source.
